@@ -23,7 +23,8 @@ from . import AnalysisError
 
 class M:
     """One variant: replace *old* by *new* in *file* (exactly *count* occurrences).
-    expect: 'clean' or a rule id such as 'C01.R2' (several: 'C01.R2|C01.R4'); '|error' also accepts ANALYSIS-ERROR."""
+    expect: 'clean' or a rule id such as 'C01.R2' (several: 'C01.R2|C01.R4'); '|error' also accepts ANALYSIS-ERROR;
+    'violation' accepts any rule of the property.  file '@patch:<path under /verif>' applies a whole diff instead."""
 
     def __init__(self, pid: str, name: str, file: str, old: str, new: str, expect: str, count: int = 1, also: Optional[List] = None):
         self.pid, self.name, self.file, self.old, self.new, self.expect, self.count = pid, name, file, old, new, expect, count
@@ -45,7 +46,18 @@ def _run_variant(args) -> Dict[str, Any]:
     try:
         dst = os.path.join(tmp, "goodwe")
         shutil.copytree(os.path.join(repo, "goodwe"), dst)
-        for file, old, new, count in [(m_dict["file"], m_dict["old"], m_dict["new"], m_dict["count"])] + [tuple(a) + (1,) if len(a) == 3 else tuple(a) for a in m_dict["also"]]:
+        edits = [(m_dict["file"], m_dict["old"], m_dict["new"], m_dict["count"])] + [tuple(a) + (1,) if len(a) == 3 else tuple(a) for a in m_dict["also"]]
+        if m_dict["file"].startswith("@patch:"):
+            # a whole change kept under /verif/seeded (seeded break or behaviour-preserving refactoring), applied with git apply
+            import subprocess
+            patch = os.path.join(os.path.dirname(os.path.dirname(os.path.abspath(__file__))), m_dict["file"][len("@patch:"):])
+            if not os.path.exists(patch):
+                return {"name": name, "pid": pid, "result": "skipped", "why": "patch %s absent" % patch}
+            r = subprocess.run(["git", "apply", "-p1", "--include=goodwe/*", patch], cwd=tmp, capture_output=True, text=True)
+            if r.returncode != 0:
+                return {"name": name, "pid": pid, "result": "skipped", "why": "patch does not apply: %s" % r.stderr.strip()[:120]}
+            edits = []
+        for file, old, new, count in edits:
             p = os.path.join(tmp, file)
             if not os.path.exists(p):
                 return {"name": name, "pid": pid, "result": "skipped", "why": "file %s absent" % file}
@@ -75,7 +87,7 @@ def _run_variant(args) -> Dict[str, Any]:
         elif got == "error":
             ok = "error" in exp
         else:
-            ok = any(r in exp for r in rules)
+            ok = any(r in exp for r in rules) or "violation" in exp
         return {"name": name, "pid": pid, "result": "as_expected" if ok else "wrong", "got": got, "expect": m_dict["expect"], "detail": detail}
     except Exception:
         return {"name": name, "pid": pid, "result": "wrong", "why": traceback.format_exc()[-600:]}
